@@ -285,11 +285,11 @@ func (s vfState) SetIPv6Autoconf(ifi string, enable bool) error {
 // and runs the const scrape only when the driver asks for it.
 type vfMetrics struct {
 	onUpdate func(name string, labels []string, v float64) // capture instead of emitting events
-	w      *vfWorld
-	mu     sync.Mutex
-	vals   map[string]float64
-	consts map[string][]string
-	scrape metricslite.ScrapeFunc
+	w        *vfWorld
+	mu       sync.Mutex
+	vals     map[string]float64
+	consts   map[string][]string
+	scrape   metricslite.ScrapeFunc
 }
 
 var _ metricslite.Interface = &vfMetrics{}
